@@ -509,6 +509,15 @@ package framework
 // C13: "the op appends exactly one log entry whose captured previous* values equal the pre-state
 // fields". evOp(s)/plOp(s)/alOp(s): the payload of the last log entry.
 //@ define lastOp(s *Statement) Operation = s.operations[len(s.operations) - 1]
+// the claim snapshot recorded in the last (evict) entry
+//@ define evSnap(s *Statement) bindrequest_info.ResourceClaimInfo = unbox(lastOp(s), "evictOperation").previousResourceClaimInfo
+// wfLog(s) after a call, in a form that names the pre-state entry next to the post-state one (each implies the
+// corresponding wf* part; the sameBelow conjunct is what lets the solvers connect the two logs)
+//@ define sameBelow(s *Statement, j int) bool = j < old(len(s.operations)) ==> s.operations[j] == old(s.operations[j])
+//@ define wfKnownStep(s *Statement) bool = forall j int :: 0 <= j && j < len(s.operations) ==> sameBelow(s, j) && knownOp(s.operations[j])
+//@ define wfRevStep(s *Statement) bool = forall j int :: 0 <= j && j < len(s.operations) ==> sameBelow(s, j) && revFn(s.operations[j]) != nil
+//@ define wfBackStep(s *Statement) bool = forall j int :: 0 <= j && j < len(s.operations) ==> sameBelow(s, j) && (isUndoOp(s.operations[j]) ==> 0 <= undoTarget(s.operations[j]) && undoTarget(s.operations[j]) < j)
+//@ define wfTaskStep(s *Statement) bool = forall j int :: 0 <= j && j < len(s.operations) ==> sameBelow(s, j) && (!isUndoOp(s.operations[j]) ==> opTask(s.operations[j]) != nil)
 //@ define appendedOne(s *Statement) bool = len(s.operations) == old(len(s.operations)) + 1 && (forall j int :: 0 <= j && j < old(len(s.operations)) ==> s.operations[j] == old(s.operations[j]))
 
 //@ func (*Statement).Evict
@@ -521,6 +530,11 @@ package framework
 //@   loop 1
 //@     invariant 0 - 1 <= rangeindex && rangeindex < len(s.ssn.eventHandlers)
 //@     invariant deallocEvents() - old(deallocEvents()) <= rangeindex + 1
+//@     invariant s.operations == old(s.operations)
+//@     invariant forall j int :: 0 <= j && j < len(s.operations) ==> s.operations[j] == old(s.operations[j])
+//@     invariant previousResourceClaimInfo != nil ==> previousResourceClaimInfo != reclaimeeTask.ResourceClaimInfo
+//@     invariant bindrequest_info.rciSameKeys(previousResourceClaimInfo, reclaimeeTask.ResourceClaimInfo)
+//@     invariant bindrequest_info.rciFreshEntries(previousResourceClaimInfo, reclaimeeTask.ResourceClaimInfo)
 //@     decreases len(s.ssn.eventHandlers) - rangeindex
 //@   ensures [errorKeepsLog] result != nil ==> s.operations == old(s.operations)
 //@   ensures [failsOnUnknownJobOrNode] !old(reclaimeeTask.Job in s.ssn.ClusterInfo.PodGroupInfos) || !old(reclaimeeTask.NodeName in s.ssn.ClusterInfo.Nodes) ==> result != nil && reclaimeeTask.Status == old(reclaimeeTask.Status)
@@ -529,13 +543,27 @@ package framework
 //@   ensures [capturesStatus] result == nil ==> unbox(lastOp(s), "evictOperation").previousStatus == old(reclaimeeTask.Status)
 //@   ensures [capturesGpuGroups] result == nil ==> unbox(lastOp(s), "evictOperation").previousGpuGroups == old(reclaimeeTask.GPUGroups)
 //@   ensures [capturesNode] result == nil ==> unbox(lastOp(s), "evictOperation").previousNode == old(s.ssn.ClusterInfo.Nodes[reclaimeeTask.NodeName])
-//@   # [capturesClaims] (previousResourceClaimInfo is a deep copy of the old map, nil iff it was nil) needs a contract on bindrequest_info.(ResourceClaimInfo).Clone
+//@   # C13 "leaves the scheduler's view of ... resource claims ... exactly as it was": the claim snapshot in the log entry is a
+//@   # deep copy of the pre-state map (nil iff it was nil; a new map with new entry objects, same keys and claim names), so
+//@   # the in-place writes of the DRA de-allocation handler cannot reach it
+//@   ensures [capturesClaimsNilIffNil] result == nil ==> (evSnap(s) == nil) == (old(reclaimeeTask.ResourceClaimInfo) == nil)
+//@   ensures [capturesClaimsNewMap] result == nil && evSnap(s) != nil ==> fresh(evSnap(s)) && evSnap(s) != reclaimeeTask.ResourceClaimInfo
+//@   ensures [capturesClaimsKeys] result == nil ==> bindrequest_info.rciSameKeys(evSnap(s), reclaimeeTask.ResourceClaimInfo)
+//@   ensures [capturesClaimsEntries] result == nil ==> bindrequest_info.rciFreshEntries(evSnap(s), reclaimeeTask.ResourceClaimInfo)
 //@   ensures [capturesMessage] result == nil ==> unbox(lastOp(s), "evictOperation").message == message && unbox(lastOp(s), "evictOperation").evictionMetadata.Action == evictionMetadata.Action && unbox(lastOp(s), "evictOperation").evictionMetadata.Preemptor == evictionMetadata.Preemptor
 //@   ensures [reversible] result == nil ==> unbox(lastOp(s), "evictOperation").reverseOperation != nil
 //@   ensures [nowReleasing] result == nil ==> reclaimeeTask.Status == pod_status.Releasing && reclaimeeTask.IsVirtualStatus
 //@   ensures [otherFieldsKept] reclaimeeTask.NodeName == old(reclaimeeTask.NodeName) && reclaimeeTask.GPUGroups == old(reclaimeeTask.GPUGroups) && reclaimeeTask.ResourceClaimInfo == old(reclaimeeTask.ResourceClaimInfo)
 //@   ensures [handlerPolarity] allocEvents() == old(allocEvents())
 //@   ensures [virtual] noEmission() && reversals() == old(reversals())
+//@   # callers chain statement operations: the log shape survives the call
+//@   ensures [lenGrows] len(s.operations) >= old(len(s.operations))
+//@   ensures [prefixKept] forall j int :: 0 <= j && j < old(len(s.operations)) ==> s.operations[j] == old(s.operations[j])
+//@   ensures [E1] result == nil ==> okEntry(lastOp(s), len(s.operations) - 1)
+//@   ensures [E2] result != nil ==> len(s.operations) == old(len(s.operations))
+//@   ensures [E3] old(wfKnown(s)) && result != nil ==> wfKnownStep(s)
+//@   ensures [E4] old(wfKnown(s)) && result == nil ==> wfKnownStep(s)
+//@   ensures [E5] old(wfKnown(s)) && result == nil ==> wfKnown(s)
 //@ end
 
 //@ func (*Statement).Allocate
@@ -558,6 +586,13 @@ package framework
 //@   ensures [nowAllocated] result == nil ==> task.Status == pod_status.Allocated && task.NodeName == hostname && task.IsVirtualStatus
 //@   ensures [handlerPolarity] deallocEvents() == old(deallocEvents())
 //@   ensures [virtual] noEmission() && reversals() == old(reversals())
+//@   # callers chain statement operations: the log shape survives the call
+//@   ensures [lenGrows] len(s.operations) >= old(len(s.operations))
+//@   ensures [prefixKept] forall j int :: 0 <= j && j < old(len(s.operations)) ==> s.operations[j] == old(s.operations[j])
+//@   ensures [wfKnownKept] old(wfKnown(s)) ==> wfKnownStep(s)
+//@   ensures [wfRevKept] old(wfRev(s)) ==> wfRevStep(s)
+//@   ensures [wfBackKept] old(wfBack(s)) ==> wfBackStep(s)
+//@   ensures [wfTaskKept] old(wfTask(s)) ==> wfTaskStep(s)
 //@ end
 
 // Unevict(task) = undo the earliest still valid evict entry of that task.
@@ -649,6 +684,7 @@ package framework
 //@   ensures [evictIffGroupKnown] old(reclaimee.Job in s.ssn.ClusterInfo.PodGroupInfos) ==> cache.evictCalls() == old(cache.evictCalls()) + 1
 //@   ensures [committedIsReal] result == nil ==> !reclaimee.IsVirtualStatus
 //@   ensures [logsSame] logsSame()
+//@   ensures [reversesNothing] reversals() == old(reversals())
 //@   ensures [commitEnvKept] commitEnvKept(s.ssn)
 //@ end
 
@@ -683,6 +719,7 @@ package framework
 //@   ensures [failureKeepsStatus] result != nil ==> pod.Status == old(pod.Status)
 //@   ensures [placementKept] pod.NodeName == old(pod.NodeName) && pod.GPUGroups == old(pod.GPUGroups) && pod.IsVirtualStatus == old(pod.IsVirtualStatus)
 //@   ensures [logsSame] logsSame()
+//@   ensures [reversesNothing] reversals() == old(reversals())
 //@   ensures [noHandlers] allocEvents() == old(allocEvents()) && deallocEvents() == old(deallocEvents())
 //@   ensures [commitEnvKept] commitEnvKept(ssn)
 //@   nopanic off
@@ -702,6 +739,7 @@ package framework
 //@   loop 1
 //@     invariant 0 - 1 <= rangeindex && rangeindex < len(task.GPUGroups)
 //@     invariant cache.bindCalls() == old(cache.bindCalls())
+//@     invariant reversals() == old(reversals())
 //@     decreases len(task.GPUGroups) - rangeindex
 //@   ensures [oneBindAtMost] emitsOnly(0, 0, 1)
 //@   ensures [bindIffNodeKnown] cache.bindCalls() == old(cache.bindCalls()) + ite(old(task.NodeName in s.ssn.ClusterInfo.Nodes), 1, 0)
@@ -710,6 +748,7 @@ package framework
 //@   ensures [failedBindIsUnallocated] result != nil && old(task.NodeName in s.ssn.ClusterInfo.Nodes) ==> task.NodeName == ""
 //@   ensures [failedBindNotVirtual] result != nil && old(task.NodeName in s.ssn.ClusterInfo.Nodes) ==> !task.IsVirtualStatus
 //@   ensures [logsSame] logsSame()
+//@   ensures [reversesNothing] reversals() == old(reversals())
 //@   ensures [commitEnvKept] commitEnvKept(s.ssn)
 //@ end
 
@@ -732,6 +771,7 @@ package framework
 //@     invariant commitReady(s)
 //@     invariant cache.evictCalls() >= old(cache.evictCalls()) && cache.pipelinedCalls() >= old(cache.pipelinedCalls()) && cache.bindCalls() >= old(cache.bindCalls())
 //@     invariant emitted() - old(emitted()) <= rangeindex + 1
+//@     invariant reversals() == old(reversals())
 //@     invariant (forall j int :: 0 <= j && j <= rangeindex ==> !old(live(s, j))) ==> emitted() == old(emitted())
 //@     invariant (forall j int :: 0 <= j && j <= rangeindex ==> !(old(live(s, j)) && isEvictOp(old(s.operations[j])))) ==> cache.evictCalls() == old(cache.evictCalls())
 //@     invariant (forall j int :: 0 <= j && j <= rangeindex ==> !(old(live(s, j)) && isPipelineOp(old(s.operations[j])))) ==> cache.pipelinedCalls() == old(cache.pipelinedCalls())
@@ -744,6 +784,9 @@ package framework
 //@   ensures [nominateOnlyForLivePipelines] (forall j int :: 0 <= j && j < old(len(s.operations)) ==> !(old(live(s, j)) && isPipelineOp(old(s.operations[j])))) ==> cache.pipelinedCalls() == old(cache.pipelinedCalls())
 //@   ensures [bindOnlyForLiveAllocates] (forall j int :: 0 <= j && j < old(len(s.operations)) ==> !(old(live(s, j)) && isAllocateOp(old(s.operations[j])))) ==> cache.bindCalls() == old(cache.bindCalls())
 //@   ensures [emptyLogIsNoop] old(len(s.operations)) == 0 ==> result == nil && emitted() == old(emitted())
+//@   # C13 "nothing is emitted for undone steps" / C01 "whatever bind/evict API calls fail": committing never runs
+//@   # the reverse closure of a log entry - in particular a failing Bind must not undo the steps whose Bind succeeded
+//@   ensures [commit-reverses-nothing] reversals() == old(reversals())
 //@ end
 
 // ---- session.go -----------------------------------------------------------------------------------
